@@ -192,6 +192,75 @@ func MapKeyStyle(style, i int64) string {
 	return plain
 }
 
+// KeySets are the adversarial map-key sets of the C11 family.  Negative
+// selectors -n stand for the plain keys k0..k(n-1).
+var KeySets = [][]string{
+	{"a", "b"},
+	{".", "..", "a.b", "a..b", ".a"},
+	{"a/b", "a%2Fb", "a%252Fb", "/", "//"},
+	{"%", "%25", "%2E", "%2e", "2E", "%%"},
+	{"a b", " a", "a ", " ", "a\tb"},
+	{""},
+	{"", "0", "fork0"},
+	{"\u00fc", "u\u0308", "\u4e2d", "\U0001F600", "\u00e9"},
+	{"0", "1", "00", "01", "_0", "10", "-1", "+1"},
+	{"fork0", "fork_a", "a/fork_b", ".fork1", "x.fork1.chnk2", "fork1"},
+	{"chnk0", "a.chnk0", "a.chnk0.u0123456789", "x.u0123456789", "u0123456789"},
+	{"complete", "a.complete", "x.join_complete", "split_complete", "errors"},
+	{"A", "a"},
+	{"a\nb", "a\"b", "a\\b", "a'b", "a*b", "a?b", "~", "$x", "&", "+", "=", ":", "@", ";", ","},
+	{"a%2Eb", "a.b", "a%252Eb"},
+	{"k.0", "k/0", "k%0", "k 0", "k_0", "k0"},
+	{"a_b", "b", "x_a_b", "_b", "b_"},
+	{"a", "ab", "ba", "aba", "b"},
+}
+
+// PairAtoms generate the keys of the key-pair family: every key is one or two
+// atoms, every unordered pair of distinct keys is a key set (selector
+// 1000 + index).
+var PairAtoms = []string{"a", "b", "_", ".", "/", "%", "0"}
+
+var pairKeys []string
+var pairSets [][2]int
+
+func init() {
+	for _, a := range PairAtoms {
+		pairKeys = append(pairKeys, a)
+	}
+	for _, a := range PairAtoms {
+		for _, b := range PairAtoms {
+			pairKeys = append(pairKeys, a+b)
+		}
+	}
+	for i := range pairKeys {
+		for j := i + 1; j < len(pairKeys); j++ {
+			pairSets = append(pairSets, [2]int{i, j})
+		}
+	}
+}
+
+// PairSetCount is the number of key pairs.
+func PairSetCount() int { return len(pairSets) }
+
+// KeySet returns the key set selected by sel.
+func KeySet(sel int) []string {
+	if sel < 0 {
+		var out []string
+		for i := 0; i < -sel; i++ {
+			out = append(out, "k"+strconv.Itoa(i))
+		}
+		return out
+	}
+	if sel < len(KeySets) {
+		return KeySets[sel]
+	}
+	if sel >= 1000 && sel-1000 < len(pairSets) {
+		ps := pairSets[sel-1000]
+		return []string{pairKeys[ps[0]], pairKeys[ps[1]]}
+	}
+	return nil
+}
+
 // StageResult is what the stage function produced.
 type StageResult struct {
 	Outs   *Val   // main / join / chunk: object of outputs
@@ -317,6 +386,24 @@ func Exec(p *Program, io *StageIO) (*StageResult, error) {
 		outs[st.Outs[0].Name] = Int(s)
 	case "COND":
 		outs[st.Outs[0].Name] = Bool(argOf(io, st.Ins[0].Name).Int() > 0)
+	case "KEYS":
+		// m: a typed map with the keys of key set sel (values 1, 2, ...);
+		// a: an array of the same length (values 100, 200, ...)
+		ks := KeySet(int(argOf(io, "sel").Int()))
+		m := Obj(nil)
+		a := &Val{K: VArr}
+		for i, k := range ks {
+			m.O[k] = Int(int64(i + 1))
+			a.A = append(a.A, Int(int64(100*(i+1))))
+		}
+		for _, o := range st.Outs {
+			switch o.Name {
+			case "m":
+				outs["m"] = m
+			case "a":
+				outs["a"] = a
+			}
+		}
 	case "FILEW":
 		// every output is produced from n; file-typed leaves name files the
 		// stage writes under its own files directory.  Top-level file outputs
